@@ -464,10 +464,27 @@ def desugar_loop(b, spec, hdr):
         head = 'let mut %s: usize = 0; while %s < %s.len() { let %s: &%s = &%s[%s];' % (iv, iv, coll, xv, ety, coll, iv)
         inc = '%s += 1;' % iv
     elif spec[0] == 'range':
+        # the comparison follows the range operator of the source (`..=` inclusive, `..` exclusive)
         _, cv, hi = spec
-        m = re.search(r'for _ in 0\.\.=%s \{' % re.escape(hi), b)
-        head = 'let mut %s: usize = 0; while %s <= %s as usize {' % (cv, cv, hi)
+        m = re.search(r'for _ in 0\.\.(=?)%s \{' % re.escape(hi), b)
+        head = 'let mut %s: usize = 0; while %s %s %s as usize {' % (cv, cv, '<=' if m and m.group(1) else '<', hi)
         inc = '%s += 1;' % cv
+    elif spec[0] == 'mapcollect':
+        # E15: `(LO..=HI).map(|_| EXPR).collect()` (or `LO..HI`) building a Vec -> a block with a
+        # counter loop over usize pushing EXPR; bounds, operator and EXPR are taken from the source
+        _, vv, iv, ety = spec
+        m = re.search(r'\(([^()]*?)\.\.(=?)([^()]*?)\)\s*\.map\(\|_\|', b)
+        if not m:
+            raise Lost('E15 (range).map(|_| ..).collect() not found in %s' % hdr)
+        op = b.index('(', m.end() - len('(|_|'))
+        cp = match_close(b, op)
+        expr = b[m.end():cp].strip()
+        tail = re.match(r'\s*\.collect\(\)', b[cp + 1:])
+        if not tail:
+            raise Lost('E15 .collect() not found after .map(..) in %s' % hdr)
+        block = ('{ let mut %(v)s: Vec<%(t)s> = Vec::new(); let mut %(i)s: usize = (%(lo)s) as usize; while %(i)s %(cmp)s (%(hi)s) as usize { %(v)s.push(%(e)s); %(i)s += 1; } %(v)s }'
+                 % dict(v=vv, i=iv, lo=m.group(1).strip(), hi=m.group(3).strip(), cmp='<=' if m.group(2) else '<', e=expr, t=ety))
+        return b[:m.start()] + block + b[cp + 1 + tail.end():]
     else:
         _, cv, xv, coll = spec
         m = re.search(r'for %s in &%s \{' % (re.escape(xv), re.escape(coll)), b)
@@ -667,6 +684,10 @@ class Emitter:
                 # E10: `for _ in 0..=HI {` -> counter loop over usize
                 _, cv, hi = s.split(None, 2)
                 e10.append(('range', cv, hi))
+            elif s.startswith('//@mapcollect '):
+                # E15: `(LO..=HI).map(|_| EXPR).collect()` -> counter loop pushing EXPR
+                _, vv, iv, ety = s.split(None, 3)
+                e10.append(('mapcollect', vv, iv, ety))
             elif s.startswith('//@foreach '):
                 # E10: `for X in &C {` -> counter loop
                 _, cv, xv, coll = s.split(None, 3)
